@@ -100,6 +100,35 @@ def order_vars(h, side):
     return q, p
 
 
+def t_init(kind):
+    """the account built by the real __init__: one fresh reservation table per side and asset (the refinement proofs above start from
+    tables that are distinct objects - here that is a proved fact of the constructor, not an assumption), balances at the starting
+    balance, nothing reserved"""
+    def t(h):
+        routes = [Obj(None, {'symbol': 'BTC-USDT'}), Obj(None, {'symbol': 'ETH-USDT'})]
+        h.ctx.cfg.overrides['jesse.services.selectors.get_all_trading_routes'] = lambda i, a, k: routes
+        h.ctx.cfg.globals['jesse.models.Exchange.exchange_info'] = lambda i: {}
+        bal = h.real('balance', 0)
+        if kind == 'futures':
+            cls = h.repo.find('jesse.models.FuturesExchange.FuturesExchange')
+            out_ex = h.interp.instantiate(cls, ['Sandbox', bal, h.real('fee', 0), 'cross', h.int('L', 1)], {})
+        else:
+            cls = h.repo.find('jesse.models.SpotExchange.SpotExchange')
+            out_ex = h.interp.instantiate(cls, ['Sandbox', bal, h.real('fee', 0)], {})
+        ex = out_ex
+        tabs = [ex.f['buy_orders'].get('BTC'), ex.f['sell_orders'].get('BTC'), ex.f['buy_orders'].get('ETH'), ex.f['sell_orders'].get('ETH')]
+        ok = all(isinstance(t_, Obj) for t_ in tabs) and len({id(t_) for t_ in tabs}) == 4
+        ok = ok and len({id(t_.f['array']) for t_ in tabs}) == 4
+        h.prove(ok, f'init.{kind}.one-fresh-reservation-table-per-side-and-asset')
+        if ok:
+            h.prove(all(ops.equal(t_.f['index'], -1) is True for t_ in tabs), f'init.{kind}.nothing-is-reserved-at-the-start')
+        dicts = [ex.f[k] for k in ('assets', 'available_assets', 'starting_assets', 'temp_reduced_amount', 'buy_orders', 'sell_orders')]
+        h.prove(len({id(d) for d in dicts}) == len(dicts), f'init.{kind}.every-balance-table-is-its-own-object')
+        h.prove(ops.equal(ex.f['assets']['USDT'], bal) is True and ops.equal(ex.f['assets']['BTC'], 0) is True,
+                f'init.{kind}.balances-start-at-the-starting-balance')
+    return t
+
+
 def t_submit(side, ro, is_open):
     def t(h):
         symbols = ['BTC-USDT', 'ETH-USDT']
@@ -117,6 +146,13 @@ def t_submit(side, ro, is_open):
         if h.branch(reject):
             h.prove((not out.ok) and out.exc == 'InsufficientMargin', f'{name}.rejected-iff-notional-over-leverage-exceeds-available-margin',
                     {'got': 'accepted' if out.ok else out.exc})
+            # a rejected order reserves nothing: the account is as before the attempt (the caller may catch the error and go on)
+            st2 = sym_state(h, w, symbols)
+            same = ops.equal(w.exchange.f['assets']['USDT'], W)
+            for k in range(len(symbols)):
+                same = ops.land(same, ops.land(ops.equal(st2[k][3], st[k][3]), ops.equal(st2[k][4], st[k][4])))
+            h.prove(ops.land(same, ops.equal(h.spec('avail', w.exchange.f['assets']['USDT'], w.L, st2), a0)),
+                    f'{name}.a-rejected-order-leaves-the-account-unchanged')
             return
         h.prove(out.ok, f'{name}.accepted-otherwise', {'raised': out.exc})
         if not out.ok:
@@ -284,6 +320,8 @@ def tasks(tier):
         ov2['jesse.models.FuturesExchange.find_order_index'] = find_contract
         ts.append(Task(f'cancel-after-submit.{side}', t_cancel_after_submit(side), extra=x, overrides=ov2))
     ts.append(Task('find_order_index', t_find, extra=x, overrides=dict(ov), invariants=INV))
+    for kind in ('futures', 'spot'):
+        ts.append(Task(f'init.{kind}', t_init(kind), extra=dict(x), overrides=dict(ov)))
     return ts
 
 
